@@ -39,6 +39,31 @@ Example C09_select_guard_nonvacuous :
       {| s_name := w_n; s_labels := [(w_a, [49])]; s_chunks := [] |} ] = true.
 Proof. exact select_guard_nonvacuous. Qed.
 
+(* FULL STATEMENT for aggregations with a without-clause (fixed code, fixes/C09-without-all-labels):
+   fn without (l) (name{ms}) selects exactly the series that satisfy the matchers — also the series
+   whose labels are ALL named in l.  [without_guard]: distinct labels in l, none of them matched. *)
+Theorem C09_select_without_exact_guarded : forall (rmatch : str -> str -> bool) fn l name ms db,
+  l <> [] -> without_guard l ms = true -> select_guard name ms db = true ->
+  forall i s, nth_error db i = Some s ->
+    (tr_mem i (tracked rmatch (QAgg fn (GWithout l) name ms) db) = true <-> spec_selected rmatch name ms s = true).
+Proof. exact select_without_exact_guarded. Qed.
+Print Assumptions C09_select_without_exact_guarded.
+
+Example C09_without_guard_nonvacuous : without_guard [w_a] [mk w_b MNe [50]] = true.
+Proof. exact without_guard_nonvacuous. Qed.
+
+(* PRE-FIX documentation (about [tracked_prefix]: the key=* filters of the without-clause were dropped
+   before the search; no longer the code): series m{a="1"} was not found by sum without (a) (m) — confirmed
+   on the pre-fix code; the harness keeps the generator stream, a regression is class agg_without_all_labels.
+   The fixed model returns the one group m{ . *)
+Theorem C09_prefix_without_all_labels_refuted :
+  let rm := fun _ _ : str => false in
+  spec_selected rm w_m [] {| s_name := w_m; s_labels := [(w_a, [49])]; s_chunks := [[(10, 60)]%Z] |} = true /\
+  tracked_prefix rm (QAgg ASum (GWithout [w_a]) w_m []) w_db1 = [] /\
+  run_query rm (QAgg ASum (GWithout [w_a]) w_m []) w_db1 = [([109; 123], [(10%Z, 60%Q)])].
+Proof. exact prefix_without_all_labels_refuted. Qed.
+Print Assumptions C09_prefix_without_all_labels_refuted.
+
 (* ---------- aggregation: per output group and timestamp, the fold of the member series' samples ----------
    for ANY set of selected series (tracker), any grouping clause; the engine reduces per series first
    (down-sampling bucket) and then across the series of the group *)
@@ -169,25 +194,26 @@ Theorem C09_split_invariant : forall (rmatch : str -> str -> bool) q db1 db2 gid
 Proof. exact split_invariant. Qed.
 Print Assumptions C09_split_invariant.
 
-(* ---------- arithmetic between vectors ---------- *)
+(* ---------- arithmetic between vectors (fixed code, fixes/C09-arith-missing-sample) ---------- *)
 Theorem C09_vector_arith_matches_labels : forall (rmatch : str -> str -> bool) op q1 q2 db e,
   In e (run_arith rmatch op q1 q2 db) ->
   exists e1 e2, In e1 (run_query rmatch q1 db) /\ In e2 (run_query rmatch q2 db) /\
     fst e = fst e1 /\
     fst e2 = q_name q2 ++ skipn (length (q_name q1)) (fst e1) /\
-    map fst (snd e) = map fst (snd e1).
+    forall t, In t (map fst (snd e)) <-> In t (map fst (snd e1)) /\ In t (map fst (snd e2)).
 Proof. exact vector_arith_matches_labels. Qed.
 Print Assumptions C09_vector_arith_matches_labels.
 
+(* FULL STATEMENT: every output sample is  left op right  of two samples at the same timestamp *)
 Theorem C09_vector_arith_value : forall (rmatch : str -> str -> bool) op q1 q2 db e t v,
   In e (run_arith rmatch op q1 q2 db) -> In (t, v) (snd e) ->
-  exists e1 e2 x, In e1 (run_query rmatch q1 db) /\ In e2 (run_query rmatch q2 db) /\ fst e = fst e1 /\
-    In (t, x) (snd e1) /\
-    v = bin_apply op x (match find (fun tv2 => Z.eqb (fst tv2) t) (snd e2) with Some tv2 => snd tv2 | None => 0%Q end).
+  exists e1 e2 x y, In e1 (run_query rmatch q1 db) /\ In e2 (run_query rmatch q2 db) /\ fst e = fst e1 /\
+    fst e2 = q_name q2 ++ skipn (length (q_name q1)) (fst e1) /\
+    In (t, x) (snd e1) /\ In (t, y) (snd e2) /\ v = bin_apply op x y.
 Proof. exact vector_arith_value. Qed.
 Print Assumptions C09_vector_arith_value.
 
-(* the pairing is by id STRING: equal label sets listed in a different order are not paired ... *)
+(* the pairing is by id STRING: equal label sets listed in a different order are not paired (still the code) *)
 Theorem C09_arith_label_order_refuted :
   let rm := fun _ _ : str => false in
   map fst (run_query rm (QSel w_m [mk w_b MNe [122; 122]]) w_db2) = [[109; 123; 98; 58; 112; 44; 97; 58; 49; 44]] /\
@@ -196,10 +222,18 @@ Theorem C09_arith_label_order_refuted :
 Proof. exact arith_label_order_refuted. Qed.
 Print Assumptions C09_arith_label_order_refuted.
 
-(* ... and a missing right-hand sample counts as 0 instead of dropping the output sample *)
-Theorem C09_arith_missing_sample_refuted :
+(* PRE-FIX documentation (about [run_arith_prefix]: the right-hand value was read from a Go map without
+   the presence check; no longer the code): m at t=10,20, n at t=10 — m * n had a sample (0) at t=20.
+   Confirmed on the pre-fix code; the harness keeps the generator stream, a regression is class
+   arith_missing_sample_as_zero. *)
+Theorem C09_prefix_arith_missing_sample_refuted :
   let rm := fun _ _ : str => false in
   map (fun e => map fst (snd e)) (run_query rm (QSel w_n []) w_db2) = [[10%Z]] /\
-  map (fun e => map fst (snd e)) (run_arith rm BMul (QSel w_m []) (QSel w_n []) w_db2) = [[10%Z; 20%Z]].
-Proof. exact arith_missing_sample_refuted. Qed.
-Print Assumptions C09_arith_missing_sample_refuted.
+  map (fun e => map fst (snd e)) (run_arith_prefix rm BMul (QSel w_m []) (QSel w_n []) w_db2) = [[10%Z; 20%Z]].
+Proof. exact prefix_arith_missing_sample_refuted. Qed.
+Print Assumptions C09_prefix_arith_missing_sample_refuted.
+
+(* regression witness of the repaired defect: the fixed model has a sample at t=10 only *)
+Example C09_fixed_arith_no_sample_without_right :
+  map (fun e => map fst (snd e)) (run_arith (fun _ _ => false) BMul (QSel w_m []) (QSel w_n []) w_db2) = [[10%Z]].
+Proof. exact fixed_arith_no_sample_without_right. Qed.
